@@ -62,13 +62,16 @@ fn main() {
                     sc.spawn(move || {
                         let own = if t % 2 == 1 { Some(re_ref.clone()) } else { None };
                         let r: &regress::Regex = own.as_ref().unwrap_or(re_ref);
+                        let mut buf = String::with_capacity(64);
                         share
                             .iter()
                             .map(|(i, y)| {
                                 if *y {
                                     std::thread::yield_now();
                                 }
-                                (*i, run_query(r, &qs_ref[*i]))
+                                buf.clear();
+                                buf.push_str(&qs_ref[*i].hay);
+                                (*i, run_query_on(r, &qs_ref[*i], &buf))
                             })
                             .collect::<Vec<_>>()
                     })
